@@ -170,6 +170,19 @@ class MonoTimer(Timer):
         """
         return (self.latest >= self._stop)
 
+
+    def start(self, duration=None, start=None):
+        """Starts MonoTimer of duration secs at start time start secs.
+            If duration not provided then uses current duration
+            If start not provided then starts at current time.time() and resets
+            ._last to that reading so that retrograde handling never spans
+            clock history from before the timer was (re)started.
+        """
+        if start is None:
+            start = self._last = time.time()
+        return super(MonoTimer, self).start(duration=duration, start=start)
+
+
     @property
     def latest(self):
         """latest measured time property getter,
